@@ -1,8 +1,22 @@
-import CalVerif.Lemmas.Ptg
+import CalVerif.Lemmas.PtgXlsb
 /-! # C14 — formulas are reported with the A1 text the token stream encodes
 
-    Theorems about the model of the two token decoders (`Model/Ptg.lean`) against the grammar, renderer
-    and encoders of `Spec/Formula.lean`.  -/
+    Theorems about the model of the two token decoders (`Model/Ptg.lean`: `pushColumn`, `cellRef`,
+    `decodeXls`/`decodeXlsb`, `applyAct`, `runXls`/`runXlsb`, `parseFormulaXls`/`parseFormulaXlsb`)
+    against the grammar, the A1 renderer and the byte encoders of `Spec/Formula.lean`
+    (`Expr`, `renderA1`, `toRpn`, `encodeXls`/`encodeXlsb`).  Helper lemmas: `Lemmas/Ptg*.lean`.
+
+    Shape of the main result (compiler correctness, in three layers):
+      1. `stack_machine_correct` — the stack-of-offsets machine run on the reverse-Polish edits of an
+         expression appends exactly `renderA1 e` and pushes exactly one offset, whatever precedes and follows;
+      2. `decode_encode_token_xls/xlsb` — decoding the bytes of a token yields that token's edit and consumes
+         exactly its bytes (all columns < 2^14, `$` exactly on the absolute components, rows 2^16 / 2^32,
+         the three operand classes);
+      3. `parse_formula_xls_correct` / `parse_formula_xlsb_correct` — hence the whole decoder returns
+         `Ok(renderA1 e)` on the encoding of every expression of the grammar.
+    Not covered by a theorem: the position part of the property (formula records at their cells; file level),
+    PtgAttrSpace / PtgExp / PtgArray / PtgNameX / PtgMemFunc / PtgExtend (outside the grammar the property
+    lists; modelled and exercised by the correspondence run), Rust's `Display` for f64 (a parameter). -/
 
 namespace C14
 open Ptg Formula
@@ -62,5 +76,126 @@ example : pushColumn 0 = "A".toList ∧ pushColumn 25 = "Z".toList ∧ pushColum
     pushColumn 255 = "IV".toList ∧ pushColumn 701 = "ZZ".toList ∧ pushColumn 702 = "AAA".toList ∧
     pushColumn 16383 = "XFD".toList := by
   refine ⟨?_, ?_, ?_, ?_, ?_, ?_, ?_⟩ <;> simp [pushColumn_one, pushColumn_two, pushColumn_three] <;> decide
+
+/-! ## references: `$` exactly on the absolute components -/
+
+/-- `push_cell_ref` on the wire field of a reference (column in bits 0–13, bit 14 = column relative,
+    bit 15 = row relative) prints `$` before the column iff the column is absolute, the column's letters,
+    `$` before the row iff the row is absolute, and the 1-based row — for every column below 2^14 -/
+theorem ref_text_flags (a : CellRef) (h : a.col < 16384) :
+    cellRef a.row (colRel a) =
+      (if a.colAbs then ['$'] else []) ++ colName a.col ++ (if a.rowAbs then ['$'] else []) ++ natText (a.row + 1) :=
+  cellRef_colRel a.row a h rfl
+
+example : cellRef 0 (colRel ⟨0, 1, true, false⟩) = "$B1".toList := by
+  have h := ref_text_flags ⟨0, 1, true, false⟩ (by decide)
+  rw [colName] at h
+  rw [h]; decide
+
+example : cellRef 4 (colRel ⟨4, 255, false, true⟩) = "IV$5".toList := by
+  have h := ref_text_flags ⟨4, 255, false, true⟩ (by decide)
+  rw [← pushColumn_eq_colName, pushColumn_two 255 (by decide) (by decide)] at h
+  rw [h]; decide
+
+/-! ## strings -/
+
+/-- a string literal's UTF-16 code units decode back to its characters (surrogate pairs included) -/
+theorem utf16_roundtrip (s : List Char) : decodeUtf16 (utf16Units s) = s := decodeUtf16_utf16Units s
+
+/-! ## layer 1: the stack machine -/
+
+/-- Compiler correctness of the stack-of-offsets algorithm: running the edits of the reverse-Polish form
+    of `e` from ANY state appends exactly the A1 text of `e` to the buffer and pushes exactly one offset
+    (the old buffer length); nothing below on the stack is touched and the run continues with `rest`.
+    Hypothesis: arities match (`arityOk`: a PtgFunc node has as many arguments as FTAB_ARGC says, function
+    indices < 485). Covers operands, unary ±, %, parentheses, SUM attribute, all binary operators and
+    fixed/variable-arity functions with their arguments in order, comma separated. -/
+theorem stack_machine_correct (env : Env) (chk : Bool) (e : Expr) (h : e.arityOk)
+    (buf : List Char) (stk : List Nat) (rest : List Act) :
+    runActs ((toRpn e).map (actOf env chk) ++ rest) ⟨buf, stk⟩ =
+      runActs rest ⟨buf ++ renderA1 env e, stk ++ [buf.length]⟩ :=
+  machine_correct env chk e h buf stk rest
+
+/-- a complete token list leaves the text and a one-element stack -/
+theorem stack_machine_result (env : Env) (chk : Bool) (e : Expr) (h : e.arityOk) :
+    runActs ((toRpn e).map (actOf env chk)) ⟨[], []⟩ = .ok ⟨renderA1 env e, [0]⟩ := by
+  have := machine_correct env chk e h [] [] []
+  simpa [runActs] using this
+
+/-- non-vacuity: `SUM($AB1+2,-(x))`-shaped tree has matching arities (SUM = index 4 is variable-arity) -/
+example : (Expr.funcVar 0 4 [.bin 3 (.ref 0 ⟨0, 27, true, false⟩) (.int 2), .uminus (.paren (.name 1 0))]).arityOk := by
+  simp [Expr.arityOk, argsOk]; decide +kernel
+
+/-! ## layer 2: bytes ↔ tokens -/
+
+/-- BIFF8: decoding the encoding of any well-formed token (followed by anything) yields the token's edit
+    and leaves exactly the bytes after it. `wf true`: rows < 2^16, columns < 2^14, `ixti`/ints < 2^16,
+    class ∈ {0,1,2}, strings < 256 units (8-bit form only for Latin-1 text), function index < 485. -/
+theorem decode_encode_token_xls (ctx : Ctx) (stkEmpty : Bool) (t : Tok) (hwf : t.wf true) (rest : Bytes) :
+    decodeTokXls ctx stkEmpty (encXls t ++ rest) = .ok (actOf (envOfXls ctx) true t, rest) :=
+  decode_encode_xls ctx stkEmpty t hwf rest
+
+/-- xlsb: same statement (rows < 2^32, strings < 2^16 units); 3-D tokens must index inside the
+    extern-sheet table (`&sheets[ixti]` is unchecked in the code: known robustness finding) -/
+theorem decode_encode_token_xlsb (ctx : Ctx) (t : Tok) (hwf : t.wf false) (hs : t.sheetOk ctx.sheets.length)
+    (rest : Bytes) :
+    decodeTokXlsb ctx (encXlsb t ++ rest) = .ok (actOf (envOfXlsb ctx) false t, rest) :=
+  decode_encode_xlsb ctx t hwf hs rest
+
+/-- the sheet a BIFF8 3-D reference names is found through the XTI table: `sheets[xtis[ixti].itab_first]` -/
+theorem sheet_via_xti (ctx : Ctx) (ixti : Nat) (it : Int) (name : List Char)
+    (h1 : ctx.xtis[ixti]? = some it) (h2 : 0 ≤ it) (h3 : ctx.sheets[it.toNat]? = some name) :
+    (envOfXls ctx).sheet ixti = name := by
+  have : ¬ it < 0 := by omega
+  simp [envOfXls, sheetXls, h1, this, h3]
+
+/-- defined names are looked up by the 1-based index the token stores -/
+theorem name_lookup (ctx : Ctx) (i : Nat) (name : List Char) (h : ctx.names[i]? = some name) :
+    (envOfXls ctx).name i = name ∧ (envOfXlsb ctx).name i = name := by
+  simp [envOfXls, envOfXlsb, h]
+
+/-! ## layer 3: the decoders on encoded expressions -/
+
+/-- **xls**: for every expression of the grammar whose tokens fit the BIFF8 fields and whose encoding fits the
+    16-bit `cce`, `parse_formula` applied to `cce ++ encoding` returns exactly the A1 text
+    (sheet names via the XTI table: `sheet_via_xti`; names: `name_lookup`). -/
+theorem parse_formula_xls_correct (ctx : Ctx) (e : Expr) (harity : e.arityOk)
+    (hwf : ∀ t ∈ toRpn e, t.wf true) (hlen : (encodeXls (toRpn e)).length < 65536) :
+    parseFormulaXls ctx (frameXls (encodeXls (toRpn e))) = .ok (renderA1 (envOfXls ctx) e) :=
+  parseFormulaXls_frame ctx e harity hwf hlen
+
+/-- **xlsb**: same for the xlsb token encoding (no length prefix; 32-bit rows) -/
+theorem parse_formula_xlsb_correct (ctx : Ctx) (e : Expr) (harity : e.arityOk)
+    (hwf : ∀ t ∈ toRpn e, t.wf false ∧ t.sheetOk ctx.sheets.length) :
+    parseFormulaXlsb ctx (encodeXlsb (toRpn e)) = .ok (renderA1 (envOfXlsb ctx) e) :=
+  parseFormulaXlsb_encode ctx e harity hwf
+
+/-- the loop budget used by `parseFormulaXls` (one unit per token, `rgce.length` units) is never exhausted
+    on encoded expressions: the run of a token list needs exactly `toks.length` units -/
+theorem fuel_suffices_xls (ctx : Ctx) (toks : List Tok) (hwf : ∀ t ∈ toks, t.wf true) (st : St) :
+    runXls ctx (encodeXls toks).length (encodeXls toks) st =
+      runActs (toks.map (actOf (envOfXls ctx) true)) st := by
+  have hge := encodeXls_length_ge toks
+  have h := runXls_encode ctx toks hwf ((encodeXls toks).length - toks.length) [] st
+  rw [List.append_nil, show toks.length + ((encodeXls toks).length - toks.length) = (encodeXls toks).length by omega] at h
+  rw [h]
+  cases runActs (toks.map (actOf (envOfXls ctx) true)) st <;> simp [runXls_nil]
+
+/-- non-vacuity of the hypotheses of layer 3: a concrete mixed expression satisfies them in both encodings -/
+example :
+    let e : Expr := .funcVar 0 4 [.bin 3 (.ref 0 ⟨0, 27, true, false⟩) (.int 2),
+      .uminus (.paren (.ref3d 1 0 ⟨4, 255, false, true⟩)), .str true "Жы".toList]
+    (∀ t ∈ toRpn e, t.wf true) ∧ (∀ t ∈ toRpn e, t.wf false ∧ t.sheetOk 1) := by
+  intro e
+  have hl : Gen.ftabLen = 485 := by decide +kernel
+  constructor
+  · intro t ht
+    simp [e, toRpn, toRpnArgs] at ht
+    rcases ht with rfl | rfl | rfl | rfl | rfl | rfl | rfl | rfl | rfl <;>
+      simp [Tok.wf, CellRef.wf, hl, utf16Units] <;> decide
+  · intro t ht
+    simp [e, toRpn, toRpnArgs] at ht
+    rcases ht with rfl | rfl | rfl | rfl | rfl | rfl | rfl | rfl | rfl <;>
+      simp [Tok.wf, Tok.sheetOk, CellRef.wf, hl, utf16Units] <;> decide
 
 end C14
